@@ -22,10 +22,36 @@ def gen_pred_case(rng, model=None, regime=None, kmax=8, pmax=8):
     return case, dict(regime=regime, k=len(teams))
 
 
-def call_pred(case, op, teams_override=None):
+def call_pred(case, op, teams_override=None, alias=False):
+    """alias=True: teams with identical content are passed as ONE list object in several slots (and identical players
+    inside different teams as one rating object) -- valid for the predict operations, which do not mutate"""
     c = case if teams_override is None else dict(case, teams=teams_override)
     model, teams, _ = build(c)
+    if alias:
+        first = {}
+        for i, t in enumerate(c["teams"]):
+            key = tuple((p[0], p[1]) for p in t)
+            if key in first:
+                teams[i] = teams[first[key]]
+            else:
+                first[key] = i
     return observe(model, op, teams)
+
+
+def has_identical_teams(teams):
+    keys = [tuple((p[0], p[1]) for p in t) for t in teams]
+    return len(set(keys)) < len(keys)
+
+
+def alias_clause(ctx, kind, payload, case, op, base_res, model, reg):
+    """shadow execution: the same call with identical teams passed as the same list object must return the same bits"""
+    if not has_identical_teams(case["teams"]):
+        return
+    o = call_pred(case, op, alias=True)
+    ctx.ev("aliased==separate")
+    if o.exc is not None or repr(o.res) != repr(base_res):
+        ctx.violation("aliased==separate", kind, payload,
+                      dict(op=op, separate=repr(base_res)[:200], aliased=repr(o.res)[:200] if o.exc is None else repr(o.exc)), model, reg)
 
 
 def team_mu(teams):
